@@ -11,6 +11,7 @@ import (
 	"fmt"
 	"io"
 	"io/fs"
+	"net/http"
 	"os"
 	"path/filepath"
 	"sort"
@@ -27,6 +28,8 @@ import (
 	"oras.land/oras-go/v2/content/file"
 	"oras.land/oras-go/v2/content/memory"
 	"oras.land/oras-go/v2/content/oci"
+	"oras.land/oras-go/v2/registry/remote"
+	"verif/harness/regfake"
 	"verif/harness/vh"
 )
 
@@ -35,6 +38,7 @@ type Opts struct {
 	Preserve     bool `json:"preserve"`
 	SkipUnpack   bool `json:"skipunpack"`
 	ForceCAS     bool `json:"forcecas"`
+	IgnoreNoName bool `json:"ignorenoname"`
 }
 
 type Case struct {
@@ -206,6 +210,16 @@ func newInter(kind, dir string) (oras.Target, func(), error) {
 			return nil, nil, err
 		}
 		return s, func() { s.Close() }, nil
+	case "remote":
+		const host = "registry.round.test"
+		reg := regfake.New(host, regfake.Profile{Referrers: true, DigestHdr: true, Range: true, Mount: true})
+		repo, err := remote.NewRepository(host + "/round/trip")
+		if err != nil {
+			return nil, nil, err
+		}
+		repo.PlainHTTP = true
+		repo.Client = &http.Client{Transport: reg}
+		return repo, func() {}, nil
 	}
 	return memory.New(), func() {}, nil
 }
@@ -274,6 +288,15 @@ func pipeline(ctx context.Context, c Case, base, name, path string, tamper, used
 	}
 	defer dst.Close()
 	dst.PreservePermissions, dst.SkipUnpack, dst.ForceCAS = c.Opts.Preserve, c.Opts.SkipUnpack, c.Opts.ForceCAS
+	if c.Opts.IgnoreNoName {
+		// unnamed content (the manifest and its config) is discarded: nothing is left to tag, the graph is copied
+		dst.IgnoreNoName = true
+		var root ocispec.Descriptor
+		if root, err = inter.Resolve(ctx, "v1"); err == nil {
+			err = oras.CopyGraph(ctx, inter, dst, root, oras.DefaultCopyGraphOptions)
+		}
+		return
+	}
 	_, err = oras.Copy(ctx, inter, "v1", dst, "v1", oras.DefaultCopyOptions)
 	return
 }
@@ -437,13 +460,13 @@ func TestDrive(t *testing.T) {
 			emit(map[string]any{"e": "round", "kind": "tamper", "case": ci, "c": c, "ok": terr == nil, "msg": errStr(terr)})
 			os.RemoveAll(filepath.Join(root, fmt.Sprintf("c%d-t", ci)))
 		}
-		if c.Shape == "file" && !c.Opts.SkipUnpack {
+		if c.Shape == "file" && !c.Opts.SkipUnpack && !c.Opts.IgnoreNoName {
 			base := filepath.Join(root, fmt.Sprintf("c%d-s", ci))
 			ok1, ok2, fresh, exists2, fetch2 := secondPipeline(ctx, c, base, name)
 			emit(map[string]any{"e": "round", "kind": "second", "case": ci, "c": c, "ok": ok1, "ok2": ok2, "fresh": fresh, "exists2": exists2, "fetch2": fetch2})
 			os.RemoveAll(base)
 		}
-		if c.Shape == "file" {
+		if c.Shape == "file" && !c.Opts.IgnoreNoName {
 			// two blobs with the same bytes under different names
 			base := filepath.Join(root, fmt.Sprintf("c%d-d", ci))
 			first, second, derr := dupPipeline(ctx, c, base, false)
